@@ -29,7 +29,11 @@ def build_case(cid, rng):
     shape = rng.choice(sorted(SHAPES))
     ty_f, ctor_f, name_acc = SHAPES[shape]
     cty = ty_f(cid)
-    m = tg.random_method(rng, "subj", allow_async=True, allow_generic=False, max_arity=4)
+    m = tg.random_method(rng, "subj", allow_async=True, allow_generic=rng.random() < 0.5, max_arity=4)
+    # a generic (non-deps) type parameter of the fn is lifted to the leaf trait: `trait Subj<M>`
+    targs = "<i32>" if m.mgenerics else ""
+    impl_g = ("<" + ", ".join("%s: %s" % (n_, " + ".join(b_)) for n_, b_ in m.mgenerics) + ">") if m.mgenerics else ""
+    targs_g = ("<" + ", ".join(n_ for n_, _b in m.mgenerics) + ">") if m.mgenerics else ""
     byval = rng.random() < 0.15
     static_lt = (not byval) and rng.random() < 0.15      # `deps: &'static C`: a lifetime the fn does not declare
     explicit_lt = (not byval) and (not static_lt) and rng.random() < 0.3
@@ -60,7 +64,8 @@ def build_case(cid, rng):
     opts = rng.choice([[], [], ["?Send"] if False else [], ["export"], ["mockall = false"], ["unimock = false"], ["debug = false"]])
     L = [DEFS] + tg.support_for([m])
     L.append("#[::entrait::entrait(%s)] /*@inv*/" % ", ".join(["pub Subj"] + opts))
-    g = ("<" + ", ".join(m.lifetimes) + ">") if m.lifetimes else ""
+    g = m.generics_text()
+    g_lt = ("<" + ", ".join(m.lifetimes) + ">") if m.lifetimes else ""
     ps = ["deps: " + dty] + [p.decl() for p in m.params]
     fid = "%s::subj" % cid
     depexpr = "&deps" if byval else "deps"
@@ -72,14 +77,14 @@ def build_case(cid, rng):
     call = "self.cfg.subj(%s)%s" % (", ".join(p.names[0] if p.form == "plain" else "__w%d" % i for i, p in enumerate(m.params)), ".await" if m.is_async else "")
     aps = [recv] + [("%s: %s" % (p.names[0] if p.form == "plain" else "__w%d" % i, p.type_text())) for i, p in enumerate(m.params)]
     L.append("#[derive(Clone, Copy)] pub struct App { pub pad: u64, pub cfg: %s }" % cty)
-    L.append("impl Subj for App { %sfn subj%s(%s)%s%s { ::vrt::recursion_guard(|| ()); %s } }" % (
-        "async " if m.is_async else "", g, ", ".join(aps), m.ret_text(), where, call))
+    L.append("impl%s Subj%s for App { %sfn subj%s(%s)%s%s { ::vrt::recursion_guard(|| ()); %s } }" % (
+        impl_g, targs_g, "async " if m.is_async else "", g_lt, ", ".join(aps), m.ret_text(), where, call))
     D = ["pub fn run() {"]
-    D.append('    ::vrt::fact("impl_notrait", ::vrt::implements!(::entrait::Impl<NoTrait>: Subj));')
-    D.append('    ::vrt::fact("bare_notrait", ::vrt::implements!(NoTrait: Subj));')
-    D.append('    ::vrt::fact("impl_c", ::vrt::implements!(::entrait::Impl<%s>: Subj));' % cty)
-    D.append('    ::vrt::fact("bare_c", ::vrt::implements!(%s: Subj));' % cty)
-    D.append('    ::vrt::fact("impl_app", ::vrt::implements!(::entrait::Impl<App>: Subj));')
+    D.append('    ::vrt::fact("impl_notrait", ::vrt::implements!(::entrait::Impl<NoTrait>: Subj%s));' % targs)
+    D.append('    ::vrt::fact("bare_notrait", ::vrt::implements!(NoTrait: Subj%s));' % targs)
+    D.append('    ::vrt::fact("impl_c", ::vrt::implements!(::entrait::Impl<%s>: Subj%s));' % (cty, targs))
+    D.append('    ::vrt::fact("bare_c", ::vrt::implements!(%s: Subj%s));' % (cty, targs))
+    D.append('    ::vrt::fact("impl_app", ::vrt::implements!(::entrait::Impl<App>: Subj%s));' % targs)
     D.append('    ::vrt::fact("c_tn", ::vrt::tn_of::<%s>());' % cty)
     wrap = (lambda c: "::vrt::block_on(%s)" % c) if m.is_async else (lambda c: c)
     calls = []
